@@ -66,6 +66,15 @@ def cases(tier, seed, ctx=None):
         head = rng.choice([b"GET ", b"POST "]) + t + b" HTTP/1.1\r\nHost: h"
         ops = [G.Construct] + [G.Feed(seg) for seg in rng.partition(head + b"\r\n\r\n", 3)]
         yield ("sock", [G.NOPOL, ops, G.env_for(over, otab, [t]), [9, t]], "sock-query-shapes")
+    # what follows the first blank line in the same read ends in a blank line itself (a pipelined request, a stray CRLF, a body that
+    # ends with one): the head is still what precedes the FIRST blank line
+    for r in sub[:40]:
+        for tail in (b"\r\n", b"\r\n\r\n", b"GET /next HTTP/1.1\r\nHost: h\r\n\r\n", b"x\r\n\r\n"):
+            stream = r["head"] + b"\r\n\r\n" + rng.bytes(max(r["cl"], 0)) + tail
+            if r["cl"] > 0:
+                continue
+            meta = [1, r["method"], r["raw"], r["path"], [[k, v] for k, v in r["query"]], [[k, v] for k, v in r["sent"]], r["cl"]]
+            yield ("sock", [G.NOPOL, [G.Construct, G.Feed(stream)], G.env_for(ver, tab, [r["raw"]]), meta], "sock-two-blank-lines-in-one-read")
     # declared lengths at and beyond the 32-bit limits (no body is sent: only what the application is told counts)
     for big in (2**31 - 1, 2**31, 2**31 + 1, 2**32 - 1, 2**32, 5 * 2**30, 2**53, 2**63 - 1):
         for nm in (b"Content-Length", b"content-length"):
